@@ -42,9 +42,9 @@ type expGroup struct {
 	Alts [][]model.Value
 	Take int
 	// for the finding classifier (aggregates only)
-	Empty   bool         // a bucket without data (filled)
-	Leading bool         // filled with null because no bucket with data precedes it
-	Phantom bool         // no value, but rows that pass the field filter exist in the window
+	Empty   bool            // a bucket without data (filled)
+	Leading bool            // filled with null because no bucket with data precedes it
+	Phantom bool            // no value, but rows that pass the field filter exist in the window
 	Points  [][]model.Value // first/last: every (time,value) of the bucket / group
 }
 
